@@ -187,7 +187,7 @@ def hvCmd (op : String) (st : Store) : Option (P (Store × String)) :=
       | .az s =>
         let f := writeAz (fun a : Float => a.toBits.toNat) d s
         let o' := HvObj.az (readAz (fun n : Nat => Float.ofBits n.toUInt64) f)
-        pure (st.put id o', s!"ok {fObj o'} derived {fECurve f.meanCol} {fECurve f.stdCol} runs {fNVec ((groupLabels f.labels).map (·.2))}"))
+        pure (st.put id o', s!"ok {fObj o'} derived {fECurve f.meanCol} {fECurve f.stdCol} runs {fNVec ((groupNumbered f.labels).map (·.2))}"))
   | "hv.state" => some (withObj fun _ o => pure (st, "ok " ++ fObj o))
   | "hv.stat" => some (withObj fun _ o => do
       let d ← pDist
